@@ -4,6 +4,7 @@
 //   c20_mpi trace <mode> <ncases> <seed>          generalized requests completed by the harness; the hooks
 //                                                 2001..2010 of mpi_polling.cpp are logged and replayed by the model
 //   c20_mpi polloff <mode> <pool>                 after stop_polling nobody may poll any more
+//   c20_mpi mtpool <mode> <W> <n> <seed> [free]   polling pool with W workers chosen through start_polling(h, name)
 //   c20_mpi strace <mode> <ncases> <seed>         the same for poll_singlethreaded (dedicated pool, non-inline
 //                                                 requests): hooks 2001/2002/2009/2011/2004/2005/2010
 // PROC also counts, with the hooks, what the real poll_singlethreaded does while a callback of transform_mpi
@@ -740,6 +741,234 @@ static int do_strace(int mode, int ncases, std::uint64_t seed, char* argv0)
     return 0;
 }
 
+// ------------------------------------------------------------------ MTPOOL (polling pool chosen by the user)
+// Public API only: a pool "mpi2" with W PUs created through init_params::rp_callback, start_polling(no_handler,
+// "mpi2"), operations through transform_mpi whose MPI function starts a generalized request (completion is in
+// the hands of the harness).  register_pool() sets enable_pool_ for ANY non-default pool; with non-inline
+// requests the poller must not run in single-threaded (lock-free) mode unless that pool has ONE worker.
+//   phase 1 (the model's two-thread witness, Properties_C20 C20_single_second_thread_wrong_callback): ops 0, 1
+//     registered in this order, r0 completed.  Timing perturbation through the hooks only: the thread that gets
+//     the Testany hit (2009) is kept there (bounded) until ANOTHER thread has finished a compact_vectors that
+//     removed a slot (2004 size change, 2010).  With one thread, or with the multi-threaded poller, 2009 never
+//     fires / nobody else compacts and the hold times out or is not entered.
+//   phase 2 (free running): n operations started from concurrent tasks, completed in seeded random order.
+// Monitors (harness side): set_value of op k before MPI_Grequest_complete(r_k) = premature; never signalled = lost.
+static int g_mt_w = 2;
+static bool g_mt_nohold = false;    // "free": no timing perturbation at all (statistical reproduction)
+static void mt_rp_cb(pika::resource::partitioner& rp, pika::program_options::variables_map const&)
+{
+    rp.create_thread_pool("mpi2", pika::resource::scheduling_policy::local_priority_fifo);
+    int n = 0;
+    for (auto const& s : rp.sockets())
+        for (auto const& c : s.cores())
+            for (auto const& p : c.pus())
+            {
+                if (n >= 1 && n <= g_mt_w) rp.add_resource(p, "mpi2");
+                ++n;
+            }
+}
+static std::atomic<int> g_mt_single{-1};               // single_thread_mode_ as seen at hook 2001 (last value)
+static std::atomic<int> g_mt_single_seen{0}, g_mt_multi_seen{0};
+static std::atomic<std::uint64_t> g_mt_threads{0};     // OS threads at 2001(single)/2002/2009
+static std::atomic<int> g_mt_hold_armed{0}, g_mt_held{0}, g_mt_hold_ok{0};
+static std::atomic<int> g_mt_compact_seq{0};           // number of finished compactions that removed a slot
+static std::atomic<int> g_mt_compact_tid{-1};
+static std::atomic<int> g_mt_nreg{0};
+static thread_local bool tl_mt_shrunk = false;
+static void mt_hook(int site, void const*, std::uint64_t a, std::uint64_t b)
+{
+    switch (site)
+    {
+    case 2001:
+        ++g_mt_nreg;
+        g_mt_single = (int) b;
+        if (b == 1)
+        {
+            ++g_mt_single_seen;
+            g_mt_threads |= (1ull << (my_tid() & 63));
+        }
+        else
+            ++g_mt_multi_seen;
+        break;
+    case 2002:
+        if (g_mt_single.load() == 1) g_mt_threads |= (1ull << (my_tid() & 63));
+        break;
+    case 2004: tl_mt_shrunk = (a != b); break;
+    case 2010:
+        if (tl_mt_shrunk)
+        {
+            g_mt_compact_tid = my_tid();
+            ++g_mt_compact_seq;
+        }
+        tl_mt_shrunk = false;
+        break;
+    case 2009:
+    {
+        g_mt_threads |= (1ull << (my_tid() & 63));
+        int one = 1;
+        if (g_mt_hold_armed.compare_exchange_strong(one, 0))
+        {
+            ++g_mt_held;
+            int seq0 = g_mt_compact_seq.load();
+            auto t0 = std::chrono::steady_clock::now();
+            while (std::chrono::steady_clock::now() - t0 < 1500ms)
+            {
+                if (g_mt_compact_seq.load() != seq0 && g_mt_compact_tid.load() != my_tid())
+                {
+                    ++g_mt_hold_ok;
+                    break;
+                }
+            }
+        }
+        break;
+    }
+    }
+}
+
+static std::vector<std::atomic<std::uint64_t>>* g_mt_handle = nullptr;    // op -> MPI_Request handle (0 = MPI call not made yet)
+static std::vector<std::atomic<int>>* g_mt_completed = nullptr;         // op -> the harness has completed its request
+static std::atomic<int> g_mt_premature{0};
+static void mt_on_value(int op)
+{
+    if (!(*g_mt_completed)[op].load()) ++g_mt_premature;
+}
+
+static int do_mtpool(int mode, int W, int n, std::uint64_t seed, char* argv0)
+{
+    std::ostringstream hl;
+    hl << "OUT MTPOOL m" << mode << "w" << W << " n=" << n;
+    g_hang_line = hl.str();
+    start_watchdog(60);
+    g_mt_w = W;
+    Rng rng(seed * 6151 + mode * 17 + W);
+    int const total = 2 + n;
+    std::vector<Ledger> led(total);
+    g_led = &led;
+    std::vector<std::atomic<std::uint64_t>> handle(total);
+    std::vector<std::atomic<int>> completed(total);
+    g_mt_handle = &handle;
+    g_mt_completed = &completed;
+    g_on_value = &mt_on_value;
+    {
+        static std::string a0 = argv0, a1 = "--pika:threads=" + std::to_string(W + 2),
+                           a2 = "--pika:mpi-completion-mode=" + std::to_string(mode);
+        static char const* av[] = {a0.c_str(), a1.c_str(), a2.c_str(), nullptr};
+        pika::init_params p;
+        p.rp_callback = &mt_rp_cb;
+        pika::start(nullptr, 3, av, p);
+    }
+    std::size_t pool_threads = pika::resource::get_thread_pool("mpi2").get_os_thread_count();
+    pika::verif::hook.store(&mt_hook, std::memory_order_release);
+    g_phase = 1;
+    run_on_pika([] { mpi::start_polling(mpi::exception_mode::no_handler, "mpi2"); });
+    g_phase = 2;
+    static std::vector<std::unique_ptr<Op>> ops;
+    ops.clear();
+    ops.resize(total);
+    for (int k = 0; k < total; ++k)
+        ops[k].reset(new Op(ex::connect(mpi::transform_mpi(ex::just(k),
+                                            [](int k, MPI_Request* r) {
+                                                MPI_Grequest_start(gq_query, gq_free, gq_cancel, nullptr, r);
+                                                (*g_mt_handle)[k].store((std::uint64_t) (std::uintptr_t) *r);
+                                            }),
+            Rcv{k})));
+    auto complete = [&](int k) {
+        completed[k].store(1);
+        MPI_Grequest_complete((MPI_Request) (std::uintptr_t) handle[k].load());
+    };
+    auto signals = [&](int k) { return led[k].nval + led[k].nerr + led[k].nstop; };
+    auto wait_for = [&](auto&& pred, int ms) {
+        for (int i = 0; i < ms * 4 && !pred(); ++i) std::this_thread::sleep_for(250us);
+        return pred();
+    };
+    // ---- phase 1
+    bool inl = (mode & 1) != 0, yw = (mode & 56) == 0;
+    int ph1_premature = 0, ph1_lost = 0, ph1_multi = 0, ph1_reg = 0;
+    {
+        bool ok = true;
+        for (int k = 0; k < 2 && ok; ++k)
+        {
+            int reg0 = g_mt_nreg.load();
+            spawn([k] { ex::start(*ops[k]); });
+            // registered with the poller (yield_while never registers: the task polls MPI_Test itself)
+            ok = wait_for([&] { return handle[k].load() != 0 && (yw || g_mt_nreg.load() > reg0); }, 5000);
+        }
+        ph1_reg = ok ? 1 : 0;
+        std::this_thread::sleep_for(2ms);    // both push_backs done (2002 follows 2001 on the same thread at once)
+        g_mt_hold_armed = g_mt_nohold ? 0 : 1;
+        if (handle[0].load()) complete(0);
+        wait_for([&] { return signals(0) > 0; }, 4000);
+        std::this_thread::sleep_for(5ms);
+        ph1_premature = g_mt_premature.load();
+        g_mt_hold_armed = 0;
+        if (handle[1].load()) complete(1);
+        wait_for([&] { return signals(0) > 0 && signals(1) > 0; }, 3000);
+        for (int k = 0; k < 2; ++k)
+        {
+            if (signals(k) == 0) ++ph1_lost;
+            if (signals(k) > 1) ++ph1_multi;
+        }
+    }
+    g_phase = 3;
+    // ---- phase 2: free running (skipped when phase 1 already broke the poller's bookkeeping)
+    int ph2_lost = 0, ph2_multi = 0, ph2_premature = 0;
+    if (ph1_lost == 0 && ph1_premature == 0 && ph1_multi == 0)
+    {
+        std::vector<int> order;
+        for (int k = 2; k < total; ++k) order.push_back(k);
+        for (size_t i = order.size(); i > 1; --i) std::swap(order[i - 1], order[rng.below(i)]);
+        for (int k : order) spawn([k] { ex::start(*ops[k]); });
+        std::vector<int> todo = order;
+        for (size_t i = todo.size(); i > 1; --i) std::swap(todo[i - 1], todo[rng.below(i)]);
+        auto t0 = std::chrono::steady_clock::now();
+        while (!todo.empty() && std::chrono::steady_clock::now() - t0 < 20s)
+        {
+            std::vector<int> rest;
+            for (int k : todo)
+            {
+                if (handle[k].load() == 0) { rest.push_back(k); continue; }
+                complete(k);
+                if (rng.below(3) == 0) std::this_thread::sleep_for(std::chrono::microseconds(rng.below(200)));
+            }
+            todo.swap(rest);
+            if (!todo.empty()) std::this_thread::sleep_for(200us);
+        }
+        wait_for([&] { return g_done.load() >= total; }, 8000);
+        for (int k = 2; k < total; ++k)
+        {
+            if (signals(k) == 0) ++ph2_lost;
+            if (signals(k) > 1) ++ph2_multi;
+        }
+        ph2_premature = g_mt_premature.load() - ph1_premature;
+    }
+    int errs = 0;
+    for (int k = 0; k < total; ++k) errs += led[k].nerr + led[k].nstop;
+    std::size_t work_after = mpi::get_work_count();
+    int nthr = __builtin_popcountll(g_mt_threads.load());
+    std::printf("%s ph1 signals op0=%d op1=%d\n", g_hang_line.c_str(), signals(0), signals(1));
+    std::printf("%s pool_threads=%zu inline=%d single_regs=%d queued_regs=%d single_threads=%d ph1_reg=%d held=%d other_thread_compacted=%d "
+                "ph1_premature=%d ph1_lost=%d ph1_multi=%d ph2_premature=%d ph2_lost=%d ph2_multi=%d errs=%d work_after=%zu\n",
+        g_hang_line.c_str(), pool_threads, inl ? 1 : 0, g_mt_single_seen.load(), g_mt_multi_seen.load(), nthr, ph1_reg,
+        g_mt_held.load(), g_mt_hold_ok.load(), ph1_premature, ph1_lost, ph1_multi, ph2_premature, ph2_lost, ph2_multi, errs,
+        work_after);
+    std::fflush(stdout);
+    if (ph1_lost || ph2_lost || work_after != 0 || ph1_premature || ph2_premature)
+    {
+        g_finished = true;
+        _exit(0);    // the poller's bookkeeping is broken: stop_polling / shutdown would wait for ever
+    }
+    g_phase = 6;
+    run_on_pika([] { mpi::stop_polling(); });
+    g_phase = 7;
+    pika::finalize();
+    pika::stop();
+    pika::verif::hook.store(nullptr, std::memory_order_release);
+    g_finished = true;
+    std::printf("%s shutdown=ok\n", g_hang_line.c_str());
+    std::fflush(stdout);
+    return 0;
+}
+
 // ------------------------------------------------------------------ POLLOFF
 static int do_polloff(int mode, bool pool, char* argv0)
 {
@@ -812,6 +1041,11 @@ int main(int argc, char** argv)
         rc = do_strace(mode, std::atoi(argv[3]), std::strtoull(argv[4], nullptr, 10), argv[0]);
     else if (cmd == "polloff" && argc >= 4)
         rc = do_polloff(mode, std::atoi(argv[3]) != 0, argv[0]);
+    else if (cmd == "mtpool" && argc >= 6)
+    {
+        g_mt_nohold = argc >= 7 && std::string(argv[6]) == "free";
+        rc = do_mtpool(mode, std::atoi(argv[3]), std::atoi(argv[4]), std::strtoull(argv[5], nullptr, 10), argv[0]);
+    }
     MPI_Finalize();
     return rc;
 }
